@@ -52,6 +52,53 @@ def run(F, rep, tier):
     rep.explanation = expl + " The decision-table rules of C03 (R03.x, among them the total-order conditions of the priority comparator handed to sort_by) are re-evaluated as premises."
 
 
+def lock_wrappers(F, prefix):
+    """local functions that only acquire the lock they are given: fn f(lock: &RwLock<T>) -> ..Guard { lock.read() / lock.write() } - a call of such a wrapper is an
+    acquisition of its argument (a wrapper "acquires the lock" when it returns with the lock held)"""
+    out = {}
+    for n, bb in F.bodies.items():
+        if not n.startswith(prefix) or bb.get("kind") == "closure" or not bb.get("argc"):
+            continue
+        tys = F.crates[bb["_crate"]]["types"]
+        if "RwLock<" not in tys[bb["locals"][1]] or "Guard<" not in tys[bb["locals"][0]]:
+            continue
+        B = mirutil.Body(F, bb)
+        for bi, c in F.body_calls(bb):
+            pp = c["f"].get("p") or ""
+            m = re.search(r"RwLock::<.*>::(read|write)$", pp)
+            if m and c["args"] and B.pointer_root(c["args"][0]) == {("param", 1)}:
+                out[n] = m.group(1)
+    return out
+
+
+def locked_field(B, a, fields, depth=0):
+    """name of the struct field whose lock the reference operand designates (`&self.field`, possibly re-borrowed)"""
+    if a[0] not in ("C", "M") or depth > 4:
+        return None
+    for (dbi, dsi, kind, st) in B.defs.get(a[1][0], []):
+        if kind == "assign" and st[2][0] == "Ref":
+            pl = st[2][2]
+            flds = [e[1] for e in pl[1:] if isinstance(e, list) and e[0] == "."]
+            if flds and flds[-1] < len(fields):
+                return fields[flds[-1]]
+            r = locked_field(B, ["C", [pl[0]]], fields, depth + 1)
+            if r:
+                return r
+        elif kind == "assign" and st[2][0] == "Use" and st[2][1][0] in ("C", "M"):
+            r = locked_field(B, st[2][1], fields, depth + 1)
+            if r:
+                return r
+    return None
+
+
+def lock_call(p, wrappers):
+    """'read' / 'write' when the callee acquires an RwLock (directly or through a wrapper), else None"""
+    m = re.search(r"RwLock::<.*>::(read|write)$", p or "")
+    if m:
+        return m.group(1)
+    return wrappers.get(p)
+
+
 def self_deadlock(F, G, rep, rid):
     """in ModelEvaluator::new: while the guard of `self.X.write()` is alive, the callee (`build`) must not reach an acquisition of the same field"""
     name = ME + "new"
@@ -63,39 +110,26 @@ def self_deadlock(F, G, rep, rid):
     fields = [f["name"] for f in adt["variants"][0]["fields"]] if adt else []
     # accessor -> field: pub fn X(&self) -> Result<RwLockReadGuard<..>> { self.X.read() }
     acc = {}
+    wrappers = lock_wrappers(F, "dmntk_model_evaluator::")
     for n, bb in F.bodies.items():
-        if not n.startswith(ME):
+        if not n.startswith(ME) or n in wrappers:
             continue
         for bi, c in F.body_calls(bb):
             p = c["f"].get("p") or ""
-            if re.search(r"RwLock::<.*>::(read|write)$", p) and c["args"]:
+            if lock_call(p, wrappers) and c["args"]:
                 B = mirutil.Body(F, bb)
-                a = c["args"][0]
-                # the argument is &self.field
-                l = a[1][0] if a[0] in ("C", "M") else None
-                for (dbi, dsi, kind, st) in B.defs.get(l, []) if l is not None else []:
-                    if kind == "assign" and st[2][0] == "Ref":
-                        pl = st[2][2]
-                        flds = [e[1] for e in pl[1:] if isinstance(e, list) and e[0] == "."]
-                        if flds and flds[-1] < len(fields):
-                            acc.setdefault(n, set()).add((fields[flds[-1]], p.split("::")[-1]))
+                fl0 = locked_field(B, c["args"][0], fields)
+                if fl0:
+                    acc.setdefault(n, set()).add((fl0, lock_call(p, wrappers)))
     B = mirutil.Body(F, b)
     nlocks = 0
     for bi, c in F.body_calls(b):
         p = c["f"].get("p") or ""
-        if not re.search(r"RwLock::<.*>::write$", p):
+        if lock_call(p, wrappers) != "write":
             continue
         held = [x[0] for x in acc.get(name, ()) if True]
         # which field: resolve the argument
-        a = c["args"][0]
-        fld = None
-        l = a[1][0] if a[0] in ("C", "M") else None
-        for (dbi, dsi, kind, st) in B.defs.get(l, []) if l is not None else []:
-            if kind == "assign" and st[2][0] == "Ref":
-                pl = st[2][2]
-                flds = [e[1] for e in pl[1:] if isinstance(e, list) and e[0] == "."]
-                if flds and flds[-1] < len(fields):
-                    fld = fields[flds[-1]]
+        fld = locked_field(B, c["args"][0], fields)
         if fld is None:
             continue
         nlocks += 1
@@ -109,7 +143,7 @@ def self_deadlock(F, G, rep, rid):
                 continue
             seen.add(x)
             t = b["blocks"][x]["t"]
-            if t[0] == "call" and (t[1]["f"].get("p") or "") in F.bodies:
+            if t[0] == "call" and (t[1]["f"].get("p") or "") in F.bodies and (t[1]["f"].get("p") or "") not in wrappers:
                 nxt = t[1]["f"]["p"]
                 break
             work += mirutil.normal_successors(t)
